@@ -91,12 +91,15 @@ def base_cfgs(rng: random.Random, per_op: int) -> List[Dict[str, Any]]:
         n = rng.choice([2, 5])
         out.append({"op": "softmax", "mult": rng.choice([0.25, 1.0, 3.0]), "batch": bt, "n": n, "dim": rng.choice([-1, 0]) if bt else -1})
         out.append({"op": "matmul", "batch": rng.choice([[], [2], [2, 3]]), "a": rng.choice([1, 2, 5]), "b": rng.choice([1, 3, 4]), "c": rng.choice([1, 2, 6])})
+        # discrete hyper-parameters that change which formula applies are ENUMERATED in every round (never sampled):
+        # bias yes/no, groups 1/2 (3 in every third round), attention heads None/2
         for op in ("linear", "linear_readout"):
-            out.append({"op": op, "batch": bt, "fan_in": rng.choice([1, 3, 8]), "fan_out": rng.choice([1, 2, 5]), "bias": rng.random() < 0.6})
-        g = rng.choice([1, 2])
-        k, st, dil = rng.choice([1, 2, 3]), rng.choice([1, 2]), rng.choice([1, 2])
-        out.append({"op": "conv1d", "batch": rng.choice([[], [2]]), "cin": g * rng.choice([1, 2]), "cout": g * rng.choice([1, 3]), "k": k, "len": dil * (k - 1) + 1 + rng.choice([0, 2, 5]),
-                    "stride": st, "padding": rng.choice([0, 1]), "dilation": dil, "groups": g, "bias": rng.random() < 0.6})
+            for bias in (False, True):
+                out.append({"op": op, "batch": bt, "fan_in": rng.choice([1, 3, 8]), "fan_out": rng.choice([1, 2, 5]), "bias": bias})
+        for g in (1, 2, 3)[: 3 if _ % 3 == 2 else 2]:
+            k, st, dil = rng.choice([1, 2, 3]), rng.choice([1, 2]), rng.choice([1, 2])
+            out.append({"op": "conv1d", "batch": rng.choice([[], [2]]), "cin": g * rng.choice([1, 2]), "cout": g * rng.choice([1, 3]), "k": k, "len": dil * (k - 1) + 1 + rng.choice([0, 2, 5]),
+                        "stride": st, "padding": rng.choice([0, 1]), "dilation": dil, "groups": g, "bias": rng.random() < 0.6})
         shapes = [[3], [1], [2, 3], [1, 3], [2, 1], [2, 1, 3], [1, 1], [], [4, 2, 3]]
         while True:
             sa, sb = rng.choice(shapes), rng.choice(shapes)
@@ -104,8 +107,9 @@ def base_cfgs(rng: random.Random, per_op: int) -> List[Dict[str, Any]]:
                 break
         out.append({"op": "add", "sa": sa, "sb": sb})
         out.append({"op": "silu_glu", "mult": rng.choice([0.25, 1.0, 3.0]), "batch": bt, "n": 3})
-        out.append({"op": "scaled_dot_product_attention", "batch": rng.choice([[], [2]]), "heads": rng.choice([None, 2]), "seq": rng.choice([2, 4]), "d_head": rng.choice([1, 3]),
-                    "mult": rng.choice([0.25, 1.0, 3.0]), "is_causal": rng.random() < 0.5, "mask": None, "dropout_p": None})
+        for heads in (None, 2):
+            out.append({"op": "scaled_dot_product_attention", "batch": rng.choice([[], [2]]), "heads": heads, "seq": rng.choice([2, 4]), "d_head": rng.choice([1, 3]),
+                        "mult": rng.choice([0.25, 1.0, 3.0]), "is_causal": rng.random() < 0.5, "mask": None, "dropout_p": None})
         out.append({"op": "dropout", "p": 0.25, "training": True, "batch": bt, "n": 5})
     return out
 
